@@ -59,8 +59,10 @@ type advCase struct {
 	WriteErrAll bool
 	// WriteErrUnicast restricts the injected failures to unicast destinations.
 	WriteErrUnicast bool
-	Seed            time.Duration
-	Tail            time.Duration // observation time after run_return
+	// WriteErrMulticast restricts them to the all-nodes destination.
+	WriteErrMulticast bool
+	Seed              time.Duration
+	Tail              time.Duration // observation time after run_return
 	// StopHook places the stop request inside an operation: "fwd" = inside the
 	// first forwarding read, "write" = inside the first socket write, that begins
 	// at or after StopHookAfter; the request is made StopHookDelay later.
@@ -225,7 +227,7 @@ func advRun(t *testing.T, c *advCase) *advResult {
 				}
 				var fired atomic.Bool
 				cn.WriteErr = func(n int, dst netip.Addr) error {
-					if c.WriteErrUnicast && dst.IsMulticast() {
+					if c.WriteErrUnicast && dst.IsMulticast() || c.WriteErrMulticast && !dst.IsMulticast() {
 						return nil
 					}
 					if c.WriteErrAfter > 0 {
